@@ -21,31 +21,45 @@ theorem translator_complete : Gen.missing = [] := by decide
 
 theorem skeleton_unchanged :
     (Gen.Skel.conds_state_clone,
+     Gen.Skel.stmts_state_clone,
      Gen.Skel.conds_state_appendHandler,
      Gen.Skel.stmts_state_appendHandler,
      Gen.Skel.conds_state_removeHandler,
      Gen.Skel.stmts_state_removeHandler,
      Gen.Skel.conds_state_addConnHandler,
+     Gen.Skel.stmts_state_addConnHandler,
      Gen.Skel.conds_state_processFile,
+     Gen.Skel.stmts_state_processFile,
      Gen.Skel.conds_state_pickMethodHandler,
+     Gen.Skel.stmts_state_pickMethodHandler,
      Gen.Skel.conds_Mux_registerService,
+     Gen.Skel.stmts_Mux_registerService,
      Gen.Skel.conds_Mux_RegisterConn,
+     Gen.Skel.stmts_Mux_RegisterConn,
      Gen.Skel.conds_Mux_DropConn,
+     Gen.Skel.stmts_Mux_DropConn,
      Gen.Skel.conds_path_delRule,
      Gen.Skel.stmts_path_delRule,
      Gen.Skel.conds_path_alive,
      Gen.Skel.stmts_path_alive)
   = (Expected.C11.conds_state_clone,
+     Expected.C11.stmts_state_clone,
      Expected.C11.conds_state_appendHandler,
      Expected.C11.stmts_state_appendHandler,
      Expected.C11.conds_state_removeHandler,
      Expected.C11.stmts_state_removeHandler,
      Expected.C11.conds_state_addConnHandler,
+     Expected.C11.stmts_state_addConnHandler,
      Expected.C11.conds_state_processFile,
+     Expected.C11.stmts_state_processFile,
      Expected.C11.conds_state_pickMethodHandler,
+     Expected.C11.stmts_state_pickMethodHandler,
      Expected.C11.conds_Mux_registerService,
+     Expected.C11.stmts_Mux_registerService,
      Expected.C11.conds_Mux_RegisterConn,
+     Expected.C11.stmts_Mux_RegisterConn,
      Expected.C11.conds_Mux_DropConn,
+     Expected.C11.stmts_Mux_DropConn,
      Expected.C11.conds_path_delRule,
      Expected.C11.stmts_path_delRule,
      Expected.C11.conds_path_alive,
